@@ -357,6 +357,13 @@ fn main() {
             let chain = arg(&args, "--chain").and_then(|s| s.parse().ok()).unwrap_or(0);
             record(seed, n, maxlen, &arg(&args, "--out").expect("--out"), chain);
         }
+        Some("dump") => {
+            // commands of a source file as JSON (k,h,d,ap), for program families kept as text
+            let text = std::fs::read_to_string(arg(&args, "--file").expect("--file")).unwrap();
+            let v = parse_json(&text).unwrap();
+            let cmds: Vec<Value> = v.as_array().unwrap().iter().map(|c| json!({"k":c["k"],"h":c["h"],"d":c["d"],"ap":c["ap"]})).collect();
+            println!("{}", Value::Array(cmds));
+        }
         Some("listing") => listing(seed, n, &arg(&args, "--out").expect("--out"), &arg(&args, "--hyeong").expect("--hyeong")),
         Some("render") => render(seed, n, &arg(&args, "--out").expect("--out"), args.iter().any(|a| a == "--big")),
         _ => {
